@@ -241,6 +241,42 @@ def tet_volumes(V, C):
     return out
 
 
+def tet_fem_stiffness(V, C):
+    """P1 finite-element stiffness matrix of a tetrahedral mesh: K[i,j] = sum over cells of vol * grad(phi_i) . grad(phi_j)
+    (equal to the n-D cotangent formula  -1/6 * sum l_kl cot(theta_kl)  off the diagonal)."""
+    V = np.asarray(V, float)
+    n = len(V)
+    K = np.zeros((n, n))
+    for c in C:
+        c = [int(v) for v in c]
+        Emat = np.c_[np.ones(4), V[c]]
+        G = np.linalg.inv(Emat)[1:, :]  # column a = gradient of the hat function of local vertex a
+        vol = abs(float(np.linalg.det(Emat))) / 6.0
+        Kt = vol * (G.T @ G)
+        for a in range(4):
+            for b in range(4):
+                K[c[a], c[b]] += Kt[a, b]
+    return K
+
+
+def tet_min_dihedral_cos(V, C):
+    """Smallest cosine of a dihedral angle over all (cell, edge) pairs: < 0 iff some dihedral angle is obtuse."""
+    V = np.asarray(V, float)
+    m = 1.0
+    for c in C:
+        c = [int(v) for v in c]
+        for i in range(4):
+            for j in range(i + 1, 4):
+                k, l = [x for x in range(4) if x not in (i, j)]
+                e = V[c[j]] - V[c[i]]
+                n1 = np.cross(e, V[c[k]] - V[c[i]])
+                n2 = np.cross(e, V[c[l]] - V[c[i]])
+                d = float(np.linalg.norm(n1) * np.linalg.norm(n2))
+                if d > 0:
+                    m = min(m, float(n1 @ n2) / d)
+    return m
+
+
 # ----------------------------------------------------------------------------- dense comparison helpers
 def row_norms(*mats):
     """max over the given matrices of the row 1-norms (vector of length n_rows)."""
